@@ -167,7 +167,7 @@ _ROUND4 = {
     "C04": ("; cannot-raise analysis (with total-helper summaries) of everything that shares the batch call's try and of its else branch",
             " Inside the try that guards the batch call nothing but the call can raise, and the counters of a successful batch are read outside the guard through helpers that cannot raise - so only a failure of the batch call itself triggers the one-by-one replay (1 defect of this kind repaired: 1a64f7f)."),
     "C05": ("; field tables of cached entries (hit-path reads vs every store site, through dict literals, comprehensions over constant tuples and helper return tuples)",
-            " Every field the T1 hit path reads out of a cached entry is put in by every store site (LRU and byte-bounded alike)."),
+            " Every field the T1 hit path reads out of a cached entry is put in by every store site (LRU and byte-bounded alike); every key that wraps a T2 computation (stage key, turn-level key) reaches version_etag of the active graphs, because T2 reads graph-store content; every first-level t2.quality key the rankers read is on quality_digest's list (trace-only keys exempt)."),
     "C06": ("; record-field tables of the re-keying sibling loops (writer, boot loader) against the normaliser's record constructor",
             " The writer's and the loader's re-keying loops set the same fields and none of the fields the normaliser persists (src / dst / rel / weight / updated_at / attrs)."),
     "C07": ("; statelessness of the codec (module-state writes, memoised helpers whose mutable result a caller edits in place)",
@@ -175,7 +175,7 @@ _ROUND4 = {
     "C09": ("; one-shot-iterator typing of arguments (generator expressions, map/filter/zip, generator calls, reducers returning them) against per-parameter walk counts of the callee",
             " No call in the fan-out / reducer modules hands a one-shot iterator to a parameter that the callee walks more than once."),
     "C10": ("; snapshot-at-capture check of the per-turn log buffer (copy at the call or inside the buffer's write)",
-            " The record stored in the per-turn capture buffer is a copy taken at capture time, never the caller's own dict."),
+            " The record stored in the per-turn capture buffer is a copy taken at capture time, never the caller's own dict; the stager signals back-pressure only where its buffer is known non-empty and drain_sorted empties it, so the driver's single retry after the drain is always admitted, whatever the byte limit."),
     "C11": ("; NaN-safe polarity analysis of the threshold guard (a positive `>=` must be known true; the negation of `<` is not accepted without a finiteness test)",
             " An episode enters a scored list only where `score >= sim_threshold` is known TRUE in all three index implementations - the negated `<` form, which admits a NaN cosine, is a violation (1 defect of this kind repaired in LanceIndex: 3ad9e10)."),
     "C14": ("; capacity-floor obligation: the validator's accepted minimum of cache max_entries against the non-emptiness implied by each eviction-loop condition",
